@@ -85,11 +85,20 @@ def gen_cases(tier, seed):
             i += 1
             yield {'family': 'row_func_raises', 'workers': w, 'pred': pred, 'n': 60, 'idx': i, 'seed': seed, 'rep': 0,
                    'layout': 'single', 'yield_injection': False}
+    # the row function starts a child process of its own (a nested pool / Process / subprocess helper)
+    for w in (1, 2):
+        i += 1
+        yield {'family': 'row_func_spawns_child', 'workers': w, 'pred': 'none', 'n': 20, 'idx': i, 'seed': seed, 'rep': 0,
+               'layout': 'single', 'yield_injection': False}
     for fam, secs in pauses:
         for w in (2, 3):
             i += 1
             yield {'family': fam, 'workers': w, 'pred': 'none' if fam == 'slow_row' else 'every_3rd', 'n': 40, 'idx': i,
                    'seed': seed, 'rep': 0, 'layout': 'single', 'yield_injection': False, 'pause_s': secs}
+
+
+def _noop():
+    pass
 
 
 def predicate_for(name, n):
@@ -145,6 +154,11 @@ def child_main(case, logpath, outpath):
                 labo.log('get', 'userlock', row.get('id'), 'ret')
         if case['family'] == 'slow_row' and row.get('id') == n - 3:
             time.sleep(pause)
+        if case['family'] == 'row_func_spawns_child' and row.get('id') % 5 == 0:
+            import multiprocessing
+            child = multiprocessing.Process(target=_noop)
+            child.start()
+            child.join()
         if case['family'] == 'row_func_raises' and row.get('id') % 7 == 0:
             raise ValueError('row function cannot handle row %r' % row.get('id'))
         row['_applied'] = row.get('_applied', 0) + 1
